@@ -194,7 +194,7 @@ def prepare(full=False):
     st['audit'] = audit_sources()
     core = ['theories/Base/Str.v', 'theories/Model/Config.v', 'theories/Model/Cluster.v', 'theories/Model/Dfa.v', 'theories/Model/Expr.v',
             'theories/Model/Print.v', 'theories/Model/Pipeline.v', 'theories/Engine/Syntax.v', 'theories/Engine/Parse.v', 'theories/Engine/Exec.v',
-            'theories/Engine/ExecCi.v', 'theories/Engine/Prio.v', 'theories/Engine/PrioCi.v', 'gen/GrexTables.v', 'gen/SrcConsts.v', 'gen/OracleTables.v']
+            'theories/Engine/ExecCi.v', 'theories/Engine/Prio.v', 'theories/Engine/PrioCi.v', 'theories/Model/SelfCheck.v', 'gen/GrexTables.v', 'gen/SrcConsts.v', 'gen/OracleTables.v']
     model_ok = all(built.get(k, False) for k in core)
     if model_ok:
         ok, msg = build_driver()
